@@ -457,7 +457,7 @@ Proof.
   (* at p itself only k was registered (among the non-standard names) *)
   assert (HF2 : forall k0, k0 <> k -> U t p k0 = None).
   { intros k0 Hne. unfold U. destruct (is_std k0) eqn:Es; [reflexivity|].
-    rewrite is_empty_spec in Hempty. specialize (Hempty k0 Es).
+    rewrite is_empty_spec in Hempty. specialize (Hempty k0 (is_std_std3 _ Es)).
     pose proof (remove_iface_spec k c) as Hs. destruct (find_iface k (ifaces c)); [|contradiction].
     destruct Hs as [_ Hs]. rewrite Hs in Hempty.
     destruct (iface_eqb k0 k) eqn:E; [apply iface_eqb_eq in E; contradiction|].
